@@ -355,6 +355,9 @@ func runC01(w *World, r *Report) {
 	r.Rule("C01.nested-options-own", "a graph used as a node is compiled with the options it was declared with: nothing but the option functions (and constructors / per-compile copies) writes a graphCompileOptions field — a parent's Compile does not hand its trigger mode, step limit or name down into a node's stored options (shared with C20)", 6)
 	compileOptionsOwned(w, r, "C01.nested-options-own")
 
+	r.Rule("C01.fanout-copies-continue", "the copies made when a node's stream output fans out continue where the stream stands (shared with C04 / C08 / C10): every successor receives what a single successor would have received", 1)
+	arrayCopyCheck(w, r, "C01.fanout-copies-continue")
+
 	r.Rule("C01.visits-all", "resolveCompletedTasks / calculateBranch / createTasks: the loops over completed tasks, their successors and branch targets are left only when exhausted or with an error (shared with C03)", 4)
 	ruleLoopsTotal(w, r, "C01.visits-all", []*ssa.Function{
 		w.Fn("compose", "runner.resolveCompletedTasks"), w.Fn("compose", "runner.calculateBranch"), w.Fn("compose", "runner.createTasks"), w.Fn("compose", "runner.calculateNextTasks"),
